@@ -3,6 +3,17 @@
 //! Retry budgets limit the total number of retries across all requests,
 //! preventing cascading failures when a downstream service is struggling.
 
+#[cfg(feature = "verif-hooks")]
+#[allow(unused_imports)]
+mod std {
+    pub use ::std::*;
+    pub mod sync {
+        pub use ::std::sync::*;
+        pub mod atomic {
+            pub use ::tower_resilience_core::verif::atomic::*;
+        }
+    }
+}
 use std::sync::atomic::{AtomicU64, Ordering};
 use std::sync::Arc;
 use tower_resilience_core::aimd::{AimdConfig, AimdController};
